@@ -306,6 +306,64 @@ example : (2 ^ 100 : Nat) * 2 ^ 92 = 2 ^ 192 := by decide +kernel
 /-- the `eps` forms apply to every valid tick: e.g. tick 200000 of a 6/18 pool -/
 example : tickOk 200000 = true ∧ sqrtAt 200000 ≠ 0 := by decide +kernel
 
+/-! ### the slack of TickMath's own sqrt prices, as a bound -/
+
+/-- reciprocity of TickMath for an arbitrary non-zero valid tick (either sign), in rational form -/
+theorem C09_std_tick_reciprocity (t : Int) (h : tickOk t = true) (ht0 : t ≠ 0) :
+    |(sqrtAt t : Rat) * (sqrtAt (-t) : Rat) - 2 ^ 192| ≤ 2 * max (sqrtAt t : Rat) (sqrtAt (-t) : Rat) := by
+  have hb : t.natAbs ≤ Gen.tickBound := by simpa [tickOk] using h
+  have hb' : t.natAbs ≤ 887272 := hb
+  have hpos : 0 < t.natAbs := by omega
+  have hr := C09_kernel_reciprocity t.natAbs hb' hpos
+  have key : sqrtAt t * sqrtAt (-t) ≤ 2 ^ 192 + 2 * max (sqrtAt t) (sqrtAt (-t)) ∧
+      2 ^ 192 ≤ sqrtAt t * sqrtAt (-t) + 2 * max (sqrtAt t) (sqrtAt (-t)) := by
+    rcases Int.natAbs_eq t with ht | ht
+    · have e1 : sqrtAt t = sqrtAt ((t.natAbs : Nat) : Int) := by rw [← ht]
+      have e2 : sqrtAt (-t) = sqrtAt (-((t.natAbs : Nat) : Int)) := by rw [← ht]
+      rw [e1, e2, Nat.mul_comm, max_comm]
+      exact hr
+    · have e1 : sqrtAt t = sqrtAt (-((t.natAbs : Nat) : Int)) := by rw [← ht]
+      have e2 : sqrtAt (-t) = sqrtAt ((t.natAbs : Nat) : Int) := by rw [ht, Int.neg_neg]; rw [← ht]
+      rw [e1, e2]
+      exact hr
+  have k1 : (sqrtAt t : Rat) * (sqrtAt (-t) : Rat) ≤ 2 ^ 192 + 2 * max (sqrtAt t : Rat) (sqrtAt (-t) : Rat) := by
+    exact_mod_cast key.1
+  have k2 : (2 : Rat) ^ 192 ≤ (sqrtAt t : Rat) * (sqrtAt (-t) : Rat) + 2 * max (sqrtAt t : Rat) (sqrtAt (-t) : Rat) := by
+    exact_mod_cast key.2
+  rw [abs_le]
+  constructor <;> linarith
+
+/-- **the mirror's token1 amount of a position vs the pool's token0 amount, TickMath's own sqrt prices, as a bound**
+    (the regime "price below the range" of the pool = "above" of the mirror): they differ by at most
+    `|l| · (2·max(s(lo), s(−lo)) / s(lo) + 2·max(s(up), s(−up)) / s(up)) / 2^96 / 10^d` — about `4·|l| / (2^96·10^d)` times
+    `max(1, 2^192 / s²)`, i.e. a few units of the last place of the integer math. -/
+theorem C09_std_amount1_mirror_tick_bound (lo up : Int) (l : Int) (dec : Bool) (d : Nat)
+    (hlo : tickOk lo = true) (hup : tickOk up = true) (hlo0 : lo ≠ 0) (hup0 : up ≠ 0)
+    (h : sqrtAt lo ≤ sqrtAt up) (h' : sqrtAt (-up) ≤ sqrtAt (-lo)) :
+    |amount1Gen NumCtx.exact (sqrtAt (-up)) (sqrtAt (-lo)) l dec d - amount0Gen NumCtx.exact (sqrtAt lo) (sqrtAt up) l dec d| ≤
+      |(l : Rat)| * (2 * max (sqrtAt lo : Rat) (sqrtAt (-lo) : Rat) / (sqrtAt lo : Rat) +
+                    2 * max (sqrtAt up : Rat) (sqrtAt (-up) : Rat) / (sqrtAt up : Rat)) / q96R / ((pow10 d : Nat) : Rat) := by
+  have ha := sqrtAt_ne_zero_of_ok lo hlo
+  have hbn := sqrtAt_ne_zero_of_ok up hup
+  rw [C09_std_amount1_mirror_eps (sqrtAt lo) (sqrtAt up) (sqrtAt (-up)) (sqrtAt (-lo)) l dec d h h' ha]
+  have r1 := C09_std_tick_reciprocity lo hlo hlo0
+  have r2 := C09_std_tick_reciprocity up hup hup0
+  have pa : (0 : Rat) < (sqrtAt lo : Rat) := by exact_mod_cast Nat.pos_of_ne_zero ha
+  have pb : (0 : Rat) < (sqrtAt up : Rat) := by exact_mod_cast Nat.pos_of_ne_zero hbn
+  have hq := q96R_pos
+  have hp : (0 : Rat) < ((pow10 d : Nat) : Rat) := by unfold pow10; positivity
+  rw [add_sub_cancel_left, abs_div, abs_div, abs_mul, abs_of_pos hq, abs_of_pos hp]
+  apply div_le_div_of_nonneg_right _ (le_of_lt hp)
+  apply div_le_div_of_nonneg_right _ (le_of_lt hq)
+  apply mul_le_mul_of_nonneg_left _ (abs_nonneg _)
+  calc |((sqrtAt lo : Rat) * (sqrtAt (-lo) : Rat) - 2 ^ 192) / (sqrtAt lo : Rat) -
+          ((sqrtAt up : Rat) * (sqrtAt (-up) : Rat) - 2 ^ 192) / (sqrtAt up : Rat)|
+      ≤ |((sqrtAt lo : Rat) * (sqrtAt (-lo) : Rat) - 2 ^ 192) / (sqrtAt lo : Rat)| +
+          |((sqrtAt up : Rat) * (sqrtAt (-up) : Rat) - 2 ^ 192) / (sqrtAt up : Rat)| := abs_sub _ _
+    _ ≤ _ := by
+      rw [abs_div, abs_div, abs_of_pos pa, abs_of_pos pb]
+      exact add_le_add (div_le_div_of_nonneg_right r1 (le_of_lt pa)) (div_le_div_of_nonneg_right r2 (le_of_lt pb))
+
 /-! ### the exact law has no instance for the code's kernel -/
 
 /-- **No sqrt-price map makes the code's kernel satisfy the exact mirror law** (the reason the statements above carry their
